@@ -2,6 +2,10 @@ import ColaVerif.Basic.GInt
 import ColaVerif.Lemmas.ExprSound
 import ColaVerif.Lemmas.ExprHerm
 import ColaVerif.Lemmas.ExprClauses
+import ColaVerif.Lemmas.ExprSdiv
+import Mathlib.Algebra.Star.Rat
+import Mathlib.Tactic.NormNum
+import Mathlib.Tactic.IntervalCases
 import Mathlib.Analysis.Complex.Basic
 
 /-!
@@ -85,6 +89,17 @@ a clause is outside the hypotheses of `C03_sound_partial` -/
 theorem C03_rootClauses_sub (re : R → R) (e : Ex R) :
     ∀ c ∈ Ex.rootClauses re e, c ∈ Ex.clauses re e := Ex.rootClauses_sub re e
 
+/-- the converse, and the exact relation: `Ex.clauses` is, clause by clause, "some node of the
+expression has it as a root clause" -/
+theorem C03_clauses_root_exact (re : R → R) (e : Ex R) :
+    (∀ c ∈ Ex.clauses re e, Ex.anyNode (Ex.hasRootClause re c) e = true) ∧
+    Ex.clauses re e =
+      (if Ex.anyNode (Ex.hasRootClause re "scalar-divided-by-operator") e
+        then ["scalar-divided-by-operator"] else []) ++
+      (if Ex.anyNode (Ex.hasRootClause re "complex-scalar-real-operator") e
+        then ["complex-scalar-real-operator"] else []) :=
+  ⟨Ex.clauses_sub_root re e, Ex.clauses_eq_root re e⟩
+
 /-! ## rejection, rule by rule (no hypothesis on annotations needed beyond `Op.Good`) -/
 
 /-- `A @ B` with different inner dimensions is rejected (no hypothesis at all) -/
@@ -148,9 +163,11 @@ def reG : GInt → GInt := fun z => ⟨z.re, 0⟩
 /-- the `1 × 1` float64 `Dense` `[1]` -/
 def one11 : Op GInt := .dense .f64 1 1 (fun _ _ => 1)
 
-/-- **the clause `scalar-divided-by-operator` is needed**: `2 / A` satisfies every other
-hypothesis and evaluates (to `A * (1/2)`), but is not a matrix expression of the ring
-(`meaning = none`) -/
+/-- **the clause `scalar-divided-by-operator` is needed** — SYNTACTIC half: `2 / A` satisfies every
+other hypothesis and evaluates (to `A * (1/2)`), but is not a matrix expression of the ring.
+`meaning (sdiv ..) = none` holds BY DEFINITION of `Ex.meaning`, so the last conjunct is
+definitional; the semantic content (what `c / A` means and when the code's result has that
+meaning) is `C03_sdiv_meaning`, `C03_sdiv_differs_witness`, `C03_sdiv_coincides_witness`. -/
 theorem C03_clause_needed_sdiv :
     let e : Ex GInt := .sdiv ⟨2, 2, .pyint, false⟩ (.op one11)
     e.LeavesGood ∧ e.NoLossyComplex reG ∧ e.HermClosed reG ∧
@@ -162,6 +179,45 @@ theorem C03_clause_needed_sdiv :
   · simp [HermClosed, All, locHerm]
   · simp [Ex.eval, mulRule, one11, Op.core, bind, Except.bind]
   · simp [Ex.meaning]
+
+/-! ## the meaning of `c / A` (relational: `M · A = c · 1 = A · M`) and what the code builds -/
+
+/-- `c / A` on an operator runs the code of `A / c` (both build `self * (1 / c)`), so by
+`C03_sound_partial` applied to `divs x c` the built operator represents `c⁻¹ · A` -/
+theorem C03_sdiv_runs_divs (re : R → R) (c : Scal R) (x : Ex R) (A : Op R)
+    (hx : eval re x = .ok (.op A)) : eval re (sdiv c x) = eval re (divs x c) :=
+  eval_sdiv_eq_divs re c x A hx
+
+/-- **the meaning of `c / A`**: `M` is `c · A⁻¹` iff `IsScalarOverOp n c A M` (`M · A = c · 1` and
+`A · M = c · 1` on the `n × n` window; no inverse needed; unique up to the factor `c`:
+`Ex.IsScalarOverOp.unique`).  The matrix `c⁻¹ · A` the code builds has this meaning iff
+`A · A = c² · 1` — the decidable coincidence condition the harness's exact oracle
+(`c03.py sdiv_oracle`, outcome `quotient_coincides_with_inverse`) evaluates. -/
+theorem C03_sdiv_meaning {R : Type} [CommRing R] (n : Nat) (s : Scal R) (hs : s.v * s.inv = 1)
+    (A : MatF R) :
+    IsScalarOverOp n s.v A (smulM s.inv A) ↔ EqOn n n (mmul n A A) (smulM (s.v * s.v) eyeM) :=
+  sdiv_code_meaning n s hs A
+
+/-- `[[0,2],[2,0]]` over ℚ -/
+def swap2 : MatF ℚ := fun i j => if i + j = 1 then 2 else 0
+
+/-- non-trivial coincidence: `2 / [[0,2],[2,0]]` — the built `½ · A = [[0,1],[1,0]]` IS `2 · A⁻¹` -/
+theorem C03_sdiv_coincides_witness :
+    IsScalarOverOp 2 (2 : ℚ) swap2 (smulM (1/2 : ℚ) swap2) := by
+  have := (sdiv_code_meaning 2 (⟨2, 1/2, .pyint, false⟩ : Scal ℚ) (by norm_num) swap2).mpr ?_
+  · exact this
+  · intro i j hi hj
+    interval_cases i <;> interval_cases j <;> simp [mmul, sumTo, swap2, smulM, eyeM]
+
+/-- **the clause is needed, SEMANTIC half**: for `2 / [1]` the code builds `[½]`, which is not
+`2 · [1]⁻¹ = [2]` -/
+theorem C03_sdiv_differs_witness :
+    ¬ IsScalarOverOp 1 (2 : ℚ) (fun _ _ => 1) (smulM (1/2 : ℚ) (fun _ _ => 1)) := by
+  intro h
+  have := (sdiv_code_meaning 1 (⟨2, 1/2, .pyint, false⟩ : Scal ℚ) (by norm_num)
+    (fun _ _ => 1)).mp h 0 0 (by norm_num) (by norm_num)
+  simp [mmul, sumTo, smulM, eyeM] at this
+  norm_num at this
 
 /-- **the clause `complex-scalar-real-operator` is needed** (NumPy complex scalar on a real
 `Dense`): every other hypothesis holds, the evaluation succeeds, and the built operator
@@ -417,6 +473,11 @@ end C03
 #print axioms C03.C03_reject_kronsum
 #print axioms C03.C03_dtype
 #print axioms C03.C03_clause_needed_sdiv
+#print axioms C03.C03_sdiv_runs_divs
+#print axioms C03.C03_sdiv_meaning
+#print axioms C03.C03_sdiv_coincides_witness
+#print axioms C03.C03_sdiv_differs_witness
+#print axioms C03.C03_clauses_root_exact
 #print axioms C03.C03_clause_needed_complex
 #print axioms C03.C03_clause_needed_complex_typeerror
 #print axioms C03.C03_bdiag_empty_rejected
